@@ -79,14 +79,72 @@ MUTANTS = {
     "wrk-default-changed": ("index", N, [("worker_keys |= {*self._registry.get(node_key, {}).keys()}",
                                           "worker_keys |= {*self._registry.get(node_key, {'x': 0}).keys()}")], "refused",
                             "the default of the lookup changed (part of the call template)"),
+    # ---- QCOW2VTBackend.show (C17, vtShow_matches_source)
+    "vt-restart-on-empty": ("show", Q, [("            if states is None:\n                states = list(image_states)",
+                                         "            if not states:\n                states = list(image_states)")],
+                            "refused", "`is None` -> `not states`: the accumulator restarts when empty (what 8bdd936 repaired; truthiness of an optional)"),
+    "vt-test-inverted": ("show", Q, [("            if states is None:\n                states = list(image_states)",
+                                      "            if states is not None:\n                states = list(image_states)")],
+                         "refused", "`is None` -> `is not None`: the filter would read None (TypeError in Python)"),
+    "vt-last-image": ("show", Q, [("states = [state for state in states if state in image_states]", "states = list(image_states)")],
+                      "proof-breaks", "else branch takes the image's own list: the last image wins"),
+    "vt-filter-dropped": ("show", Q, [("[state for state in states if state in image_states]", "[state for state in states]")],
+                          "proof-breaks", "the membership test dropped: the first image wins"),
+    "vt-filter-negated": ("show", Q, [("[state for state in states if state in image_states]",
+                                       "[state for state in states if state not in image_states]")],
+                          "proof-breaks", "`in` -> `not in`"),
+    "vt-filter-swapped": ("show", Q, [("[state for state in states if state in image_states]",
+                                       "[state for state in image_states if state in states]")],
+                          "proof-breaks", "the roles of the two lists swapped: same set, the order of the LAST image"),
+    "vt-union": ("show", Q, [("[state for state in states if state in image_states]", "states + list(image_states)")],
+                 "refused", "union instead of intersection (`+` on lists: outside the subset)"),
+    "vt-return-inverted": ("show", Q, [("return states if states is not None else []", "return states if states is None else []")],
+                           "refused", "the final test inverted: returns None / [] (a list is expected)"),
+    "vt-skip-first": ("show", Q, [('        states = None\n        for image_name in params.objects("images"):',
+                                   '        states = None\n        for image_name in params.objects("images")[1:]:')],
+                      "refused", "the first image skipped (a slice: outside the subset)"),
+    "vt-old-loop": ("show", Q, [('        states = None\n        for image_name in params.objects("images"):',
+                                 '        states = set()\n        for image_name in params.objects("images"):'),
+                                ("            if states is None:\n                states = list(image_states)\n"
+                                 "            else:\n                states = [state for state in states if state in image_states]\n"
+                                 "        return states if states is not None else []",
+                                 "            if len(states) == 0:\n                states = image_states\n"
+                                 "            else:\n                states = states.intersect(image_states)\n"
+                                 "        return states")],
+                    "refused", "the loop as it was before 8bdd936 (F1)"),
+    "vt-one-liner": ("show", Q, [("            if states is None:\n                states = list(image_states)\n"
+                                  "            else:\n                states = [state for state in states if state in image_states]",
+                                  "            states = list(image_states) if states is None else [state for state in states if state in image_states]")],
+                     "still-proves", "semantics preserving: the if statement as a conditional expression"),
+    # ---- RamfileBackend._show, combination part (C17, ramImagesStates_matches_source)
+    "ram-restart-on-empty": ("show", R, [("            if images_states is None:\n                images_states = set(image_snapshots)",
+                                          "            if not images_states:\n                images_states = set(image_snapshots)")],
+                             "refused", "`is None` -> `not images_states` (seeded C13d / C17b; truthiness of an optional)"),
+    "ram-union": ("show", R, [("images_states.intersection(image_snapshots)", "images_states.union(image_snapshots)")],
+                  "refused", "`.union` (outside the subset)"),
+    "ram-last-image": ("show", R, [("images_states = images_states.intersection(image_snapshots)", "images_states = set(image_snapshots)")],
+                       "proof-breaks", "the last image wins"),
+    "ram-keep-first": ("show", R, [("images_states = images_states.intersection(image_snapshots)", "images_states = images_states")],
+                       "proof-breaks", "the first image wins"),
+    "ram-test-inverted": ("show", R, [("            if images_states is None:\n                images_states = set(image_snapshots)",
+                                       "            if images_states is not None:\n                images_states = set(image_snapshots)")],
+                          "refused", "`is None` -> `is not None`: `.intersection` on None"),
+    "ram-fallback-dropped": ("show", R, [("        if images_states is None:\n            images_states = set()\n", "")],
+                             "proof-breaks", "no `None -> set()`: `state in None` for a vm without images"),
+    "ram-old-loop": ("show", R, [("        images_states = None\n", "        images_states = set()\n"),
+                                 ("            if images_states is None:\n                images_states = set(image_snapshots)",
+                                  "            if len(images_states) == 0:\n                images_states = set(image_snapshots)")],
+                     "refused", "the loop as it was before 8bdd936"),
 }
 
-TARGET = {"index": ("GenIndex.lean", "I2N.Props.C16")}
+TARGET = {"index": ("GenIndex.lean", "I2N.Props.C16"), "show": ("GenShow.lean", "I2N.Props.C17")}
 
 
 def source_of(target, path):
     if target == "index":
         return px.index_source(path)
+    if target == "show":
+        return px.show_source(qcow2_path=path) if path.endswith("qcow2.py") else px.show_source(ramfile_path=path)
     raise KeyError(target)
 
 
